@@ -222,7 +222,7 @@ def _flag_sets(bank):
 
 def _grid(tier):
     rates = [8000, 16000] if tier == "quick" else [8000, 16000, 44100]
-    nums = [5, 11] if tier == "quick" else [1, 2, 5, 11, 40]
+    nums = [5, 11, 1, 2] if tier == "quick" else [1, 2, 5, 11, 40]
     for bank in ("gabor", "gamma", "tri", "fbank"):
         for scale in SCALES if bank != "fbank" else [{"name": "mel"}]:
             floor = scale["low_hz"] if scale["name"] == "octave" else 0.0
@@ -328,6 +328,13 @@ def run(tier, seed):
         spec = {"bank": bank, "scale": {"name": "mel"}, "num_filts": 5, "rate": 8000, "low_hz": 0.0, "high_hz": None}
         spec.update(flags)
         core.append(spec)
+    # one or two filters over the whole band: support wider than the period (whole-period fallback of
+    # get_truncated_response and its neighbourhood)
+    for n, scale in ((1, {"name": "linear", "low_hz": 0.0, "slope_hz": 1.0}), (2, {"name": "mel"}), (1, {"name": "mel"}), (2, {"name": "linear", "low_hz": 0.0, "slope_hz": 1.0})):
+        core.append({"bank": "gabor", "scale": scale, "num_filts": n, "rate": 8000, "low_hz": 0.0, "high_hz": None, "erb": False, "l2": n == 2})
+        core.append({"bank": "gamma", "scale": scale, "num_filts": n, "rate": 8000, "low_hz": 0.0, "high_hz": None, "order": 4 if n == 1 else 2, "max_centered": n == 2, "erb": False, "l2": False})
+    for n, o in ((5, 4), (3, 6), (8, 3)):  # gammatone supports between one and two periods
+        core.append({"bank": "gamma", "scale": {"name": "linear", "low_hz": 0.0, "slope_hz": 1.0}, "num_filts": n, "rate": 8000, "low_hz": 0.0, "high_hz": None, "order": o, "max_centered": False, "erb": False, "l2": False})
     specs = core + [grid[i] for i in order]
     # phase 1: small widths (2..64) on as many banks as the budget allows; phase 2: big widths
     t0 = time.time()
@@ -375,7 +382,7 @@ def run(tier, seed):
     return col.result(
         rule="one case per (bank configuration, filter index, DFT width); all clauses are checked on each; non-trivial when the truncated response has at least one non-zero value at that width",
         bound=(
-            f"BOUNDED ({tier}): grid 4 banks x 4 scales x rates {'{8k,16k}' if quick else '{8k,16k,44.1k}'} x num_filts {'{5,11}' if quick else '{1,2,5,11,40}'} x 3 ranges "
+            f"BOUNDED ({tier}): grid 4 banks x 4 scales x rates {'{8k,16k}' if quick else '{8k,16k,44.1k}'} x num_filts {'{1,2,5,11}' if quick else '{1,2,5,11,40}'} x 3 ranges "
             f"(incl. low_hz = 0 -> wrap below 0) x flags ({len(grid)} configurations, visited in seeded class-interleaved order within the time budget, every 5th "
             f"replaced by a seeded random configuration), all filters (n <= 11; ends and middle otherwise), widths 2..64 and then {BIG_WIDTHS}"
         ),
